@@ -611,3 +611,101 @@ pub fn pk_bytes_case(ctx: &mut Ctx, s: &FamSubject) {
         ctx.case("pkparse:truncated", true, &format!("pkparse fmt={fname} nf={nfixed} np={nperm} deg={deg} {}", hex(&bytes[..cut])), &ans);
     }
 }
+
+/// The family circuit laid out by the `V1` floor planner (two passes, region sorting, hash-map
+/// based column allocation) instead of `SimpleFloorPlanner`.
+#[derive(Clone, Debug)]
+pub struct V1Fam(pub FamCircuit);
+
+impl midnight_proofs::plonk::Circuit<F> for V1Fam {
+    type Config = <FamCircuit as midnight_proofs::plonk::Circuit<F>>::Config;
+    type FloorPlanner = midnight_proofs::circuit::floor_planner::V1;
+    type Params = FamParams;
+    fn without_witnesses(&self) -> Self {
+        V1Fam(self.0.without_witnesses())
+    }
+    fn params(&self) -> FamParams {
+        self.0.params()
+    }
+    fn configure(_: &mut midnight_proofs::plonk::ConstraintSystem<F>) -> Self::Config {
+        unreachable!()
+    }
+    fn configure_with_params(meta: &mut midnight_proofs::plonk::ConstraintSystem<F>, p: FamParams) -> Self::Config {
+        FamCircuit::configure_with_params(meta, p)
+    }
+    fn synthesize(&self, cfg: Self::Config, layouter: impl midnight_proofs::circuit::Layouter<F>) -> Result<(), midnight_proofs::plonk::Error> {
+        self.0.synthesize(cfg, layouter)
+    }
+}
+
+/// Determinism, write/read and one proof for the family member under the V1 floor planner.
+pub fn v1_case(ctx: &mut Ctx, fp: &FamParams, seed: u64, reps: usize) {
+    use midnight_proofs::plonk::Circuit;
+    let c = V1Fam(FamCircuit::new(fp.clone(), seed));
+    let desc = json!({"family": format!("{fp:?}"), "seed": seed, "floor_planner": "V1"});
+    let mut k = 4;
+    let (params, vk, pk) = loop {
+        let params = setup(k, 1000 + k as u64);
+        match mzkh::catch(|| keygen_vk_with_k::<F, Scheme, _>(&params, &c, k)) {
+            Ok(Ok(vk)) => {
+                let pk = keygen_pk(vk.clone(), &c).unwrap();
+                break (params, vk, pk);
+            }
+            _ if k < 10 => k += 1,
+            other => {
+                ctx.count(&format!("v1:keygen-failed:{}", other.is_err()));
+                return;
+            }
+        }
+    };
+    ctx.count(&format!("v1:k{k}"));
+    let base = vk_image(&vk);
+    let base_full = pk_full_digest(&pk);
+    for &t in POOLS.iter() {
+        for rep in 0..reps {
+            ctx.count(&format!("keygen:v1:pool{t}"));
+            let (v2, p2) = in_pool(t, || {
+                let v = keygen_vk_with_k::<F, Scheme, _>(&params, &c, k).unwrap();
+                let p = keygen_pk(v.clone(), &c).unwrap();
+                (v, p)
+            });
+            if vk_image(&v2) != base {
+                ctx.oracle_fail("keygen-nondeterministic:vk:v1", "two key generations (V1 floor planner) gave different verifying keys", json!({"case": desc, "threads": t, "rep": rep}));
+            }
+            if pk_full_digest(&p2) != base_full {
+                ctx.oracle_fail("keygen-nondeterministic:pk:v1", "two key generations (V1 floor planner) gave different proving keys", json!({"case": desc, "threads": t, "rep": rep}));
+            }
+        }
+    }
+    for (fmt, fname) in FORMATS {
+        let r = mzkh::catch(|| PK::from_bytes::<V1Fam>(&pk.to_bytes(fmt), fmt, fp.clone()));
+        match r {
+            Ok(Ok(p2)) => {
+                if pk_full_digest(&p2) != base_full || vk_image(p2.get_vk()) != base {
+                    ctx.oracle_fail(&format!("pk-roundtrip-derived:v1:{fname}"), "reloaded proving key (V1 floor planner) differs from the generated one", desc.clone());
+                }
+            }
+            other => ctx.oracle_fail(&format!("pk-roundtrip-rejected:v1:{fname}"), "proving key (V1 floor planner) written then read was rejected", json!({"case": desc, "result": format!("{:?}", other.map(|r| r.map(|_| "ok").map_err(|e| e.to_string())))})),
+        }
+    }
+    // one proof
+    let wc = V1Fam(FamCircuit::new(fp.clone(), seed + 5));
+    let insts = wc.0.instances();
+    let refs: Vec<&[F]> = insts.iter().map(|c| &c[..]).collect();
+    let proof = mzkh::catch(|| {
+        let mut tr = CircuitTranscript::<Blake2bState>::init();
+        create_proof::<F, Scheme, _, _>(&params, &pk, std::slice::from_ref(&wc), fp.n_committed, &[&refs[..]], ChaCha8Rng::seed_from_u64(5), &mut tr)
+            .map(|_| tr.finalize())
+            .map_err(|e| format!("{e:?}"))
+    });
+    match proof {
+        Ok(Ok(p)) => {
+            if fam_verify(&params, &vk, fp, seed + 5, &p) != Ok(true) {
+                ctx.oracle_fail("honest-proof-rejected:v1", "honest proof (V1 floor planner) rejected", desc.clone());
+            }
+            ctx.count("proof:v1");
+        }
+        other => ctx.oracle_fail("honest-proof-failed:v1", "proving (V1 floor planner) failed", json!({"case": desc, "result": format!("{other:?}")})),
+    }
+    let _ = c.params();
+}
